@@ -362,6 +362,14 @@ static inline std::vector<uint8_t> genSysEx(Rng &r)
     std::vector<uint8_t> m;
     int k = (int)r.below(8);
     uint8_t dev = (uint8_t)(r.chance(0.5) ? 0x7F : r.below(16));
+    // the shortest framed strings: F0 F7, F0 <manufacturer> F7, F0 <manufacturer> <device> F7 (every header field of a
+    // longer message is missing or is the terminator itself)
+    if(r.chance(0.08))
+    {
+        uint8_t man = (uint8_t)r.pick<int>({ 0x41, 0x43, 0x7E, 0x7F, 0x7D });
+        switch(r.below(3)) { case 0: m = { 0xF0, 0xF7 }; break; case 1: m = { 0xF0, man, 0xF7 }; break; default: m = { 0xF0, man, (uint8_t)(man == 0x41 || man == 0x43 ? (0x10 | (dev & 15)) : dev), 0xF7 }; break; }
+        return m;
+    }
     switch(k)
     {
     case 0: m = { 0xF0, 0x7E, dev, 0x09, 0x01, 0xF7 }; break;
